@@ -20,7 +20,8 @@ ElfEntryBytesA(es, i, rot, isStr, addr) ==
 ElfEntryBytes(es, i, rot, isStr) == ElfEntryBytesA(es, i, rot, isStr, ExtAddr)
 ElfParamsSet ==
   UNION { { [n |-> n, es |-> es, shndx |-> sh, slen |-> sl, rot |-> rot, atEnd |-> lst, strbad |-> FALSE]
-            : sh \in 0..(n + 1), sl \in {0, Max(es * n, 1) - 1, es * n, es * n + 8}, rot \in ElfRots, lst \in BOOLEAN }
+            \* string-table indices also from the reserved range of ELF (0xff00..0xffff): just as far outside the table
+            : sh \in 0..(n + 1) \cup {65280, 65535}, sl \in {0, Max(es * n, 1) - 1, es * n, es * n + 8}, rot \in ElfRots, lst \in BOOLEAN }
           : n \in 0..MaxN, es \in ElfSizes }
   \* strbad: the string table the tag designates lies at an unmapped address.  Iterating, counting and Debug formatting
   \* never resolve a name - only an explicit name() call goes to the external address (C01's one exception)
